@@ -24,7 +24,7 @@ import (
 	"verif/internal/model"
 )
 
-const rule = "cases: signed structures built by the independent model and signed with stdlib crypto - RouterInfo (Ed25519, DSA, P-256, P-384 identities), LeaseSet (DSA incl. NULL certificate, P-256, P-384, Ed25519, RedDSA), LeaseSet2 / MetaLeaseSet (library-documented layout) / EncryptedLeaseSet with and without offline block (identity types as above, transient types 0,1,2,7,11), standalone OfflineSignature - (one base in three is instead built and signed by the library's own constructors, so that a verifier that is lenient in the same way as the signer is exposed by the edits) x adversarial derivations: genuine; offline block with a random signature; offline block signed by another key of the identity's type (transplanted from another identity); outer signature random or made by an attacker key, or made by the prescribed key under another store-type prefix (0, 1, 2, 3, 5, 7, 255; for RouterInfo and LeaseSet: with a prefix prepended); field-level tampering after signing: the identity's certificate given more payload (NULL and KEY), an encryption key of an experimental / unassigned / ordinary type inserted, a lease / address / entry duplicated or dropped, a mapping re-encoded with junk inside its declared size or with a repeated '=' / ';' delimiter (RouterInfo address options, LeaseSet2 options), and of an options mapping (pair with empty key or empty value added, pair appended / dropped / duplicated, order reversed, value changed - in RouterInfo options, address options, LeaseSet2 options, MetaLeaseSet options and entry properties); 1-3 byte-level edits (bit flips, byte sets, 2-byte field +-k, insertions, deletions, truncation, appended data) aimed at header, length, count, flag and key fields or anywhere. Before a tampered or edited encoding is judged, the genuine encoding it derives from is parsed and verified in the same process. Oracle: if the library parses the derived bytes and reports success, then (i) the strict model decodes exactly the consumed bytes, (ii) the outer signature verifies (crypto/ed25519, crypto/ecdsa, crypto/dsa) over prefix || consumed[:-sig] under the identity key, or under the transient key if flag bit 0 is set AND the offline block's signature verifies over expires||type||key under the identity key (blinded key for EncryptedLeaseSet). After a RouterInfo has verified, it is changed through the exported API (AddAddress, or the cost of an address through the pointer RouterAddresses() returns) and verified again: success must then hold over the value's new serialisation. Non-trivial: the derived input is not genuine and still parses; distinct by input bytes."
+const rule = "cases: signed structures built by the independent model and signed with stdlib crypto - RouterInfo (Ed25519, DSA, P-256, P-384 identities), LeaseSet (DSA incl. NULL certificate, P-256, P-384, Ed25519, RedDSA), LeaseSet2 / MetaLeaseSet (library-documented layout) / EncryptedLeaseSet with and without offline block (identity types as above, transient types 0,1,2,7,11), standalone OfflineSignature - (one base in three is instead built and signed by the library's own constructors, so that a verifier that is lenient in the same way as the signer is exposed by the edits) x adversarial derivations: genuine; offline block with a random signature; offline block signed by another key of the identity's type (transplanted from another identity); outer signature random or made by an attacker key, or made by the prescribed key under another store-type prefix (0, 1, 2, 3, 5, 7, 255; for RouterInfo and LeaseSet: with a prefix prepended); field-level tampering after signing: a string (an address's transport style, a key or a value of any mapping) grown by 1..3 bytes of white space / NUL / quote / letter at its front or end with its length prefix following, one bit of any fixed-width field of a repeated element inverted (address cost and expiration, lease gateway / tunnel / end date, entry hash / type / expires / cost incl. the high bits of the one-byte fields, encryption key type), the identity's certificate given more payload (NULL and KEY), an encryption key of an experimental / unassigned / ordinary type inserted, a lease / address / entry duplicated or dropped, a mapping re-encoded with junk inside its declared size or with a repeated '=' / ';' delimiter (RouterInfo address options, LeaseSet2 options), and of an options mapping (pair with empty key or empty value added, pair appended / dropped / duplicated, order reversed, value changed - in RouterInfo options, address options, LeaseSet2 options, MetaLeaseSet options and entry properties); 1-3 byte-level edits (bit flips, byte sets, 2-byte field +-k, insertions, deletions, truncation, appended data) aimed at header, length, count, flag and key fields or anywhere. Before a tampered or edited encoding is judged, the genuine encoding it derives from is parsed and verified in the same process. Oracle: if the library parses the derived bytes and reports success, then (i) the strict model decodes exactly the consumed bytes, (ii) the outer signature verifies (crypto/ed25519, crypto/ecdsa, crypto/dsa) over prefix || consumed[:-sig] under the identity key, or under the transient key if flag bit 0 is set AND the offline block's signature verifies over expires||type||key under the identity key (blinded key for EncryptedLeaseSet). After a RouterInfo has verified, it is changed through the exported API (AddAddress, or the cost of an address through the pointer RouterAddresses() returns) and verified again: success must then hold over the value's new serialisation. Non-trivial: the derived input is not genuine and still parses; distinct by input bytes."
 
 func TestMain(m *testing.M) { ev.Main(m, "C05", rule) }
 
@@ -191,11 +191,52 @@ func rawMapping(p []model.Pair, kind, which int) ([]byte, bool) {
 	return append([]byte{byte(len(body) >> 8), byte(len(body))}, body...), true
 }
 
-// tamper applies Case.Tamper to the encoding of a signed structure; the signature
-// stays what it was. ok=false: not applicable (nothing changed, not decodable).
+// padBytes: bytes a canonicalising parser might strip from a string before storing it.
+var padBytes = []byte{' ', '\t', '\n', '\r', 0x00, 0x0b, 0x0c, 0xa0, '"', 'x'}
+
+// padString is tamper kind 18: a string field grows by one to three bytes at its front or
+// its end (white space, NUL, a quote, a letter); the length prefix follows because the model
+// re-encodes the structure. A parser that trims or normalises the string before
+// storing it no longer holds the bytes the signature has to cover.
+func padString(s []byte, which int) ([]byte, bool) {
+	n := 1 + (which/20)%3
+	if len(s)+n > 255 {
+		return s, false
+	}
+	pad := bytes.Repeat([]byte{padBytes[which%len(padBytes)]}, n)
+	if (which/10)%2 == 0 {
+		return append(append([]byte{}, s...), pad...), true
+	}
+	return append(pad, s...), true
+}
+
+// padPair applies padString to the key or the value of one pair.
+func padPair(p []model.Pair, which int) ([]model.Pair, bool) {
+	if len(p) == 0 {
+		return p, false
+	}
+	out := append([]model.Pair{}, p...)
+	i := (which / 7) % len(out)
+	if (which/3)%2 == 0 {
+		v, ok := padString(out[i].V, which)
+		out[i] = model.Pair{K: out[i].K, V: v}
+		return out, ok
+	}
+	k, ok := padString(out[i].K, which)
+	out[i] = model.Pair{K: k, V: out[i].V}
+	return out, ok
+}
+
+// flipField is tamper kind 19: one bit of one fixed-width field of a repeated element
+// (address cost / expiration, lease gateway / tunnel / end date, entry hash / type /
+// expires / cost, encryption key type) is inverted - every bit of every such field is
+// reachable, the high "reserved" bits of one-byte fields included.
+func flipBytes(b []byte, bit int) { b[(bit/8)%len(b)] ^= 1 << uint(bit%8) }
+
 // tamper applies Case.Tamper to the encoding of a signed structure; the signature
 // stays what it was. Kinds 1..8 change one mapping (tamperPairs); kinds 9.. change the
-// structure around it: 9 the identity's certificate gets two more payload bytes (NULL
+// structure around it (18 pads a string, 19 inverts a bit of a fixed-width field: see
+// padString and flipBytes): 9 the identity's certificate gets two more payload bytes (NULL
 // and KEY certificates alike), 10 an encryption key of an experimental type is inserted,
 // 11 an X25519 key is inserted, 12 the first lease / address / entry is duplicated at the
 // end, 13 the last lease / address / entry is dropped, 14 a key of an unassigned type (9)
@@ -238,6 +279,35 @@ func tamper(c Case, b []byte) ([]byte, bool) {
 				return b, false
 			}
 			m.Addrs[i].RawOptions = raw
+		case kind == 18 && len(m.Addrs) > 0 && which%3 != 2:
+			i := (which / 60) % len(m.Addrs)
+			a := m.Addrs[i]
+			var ok bool
+			if which%3 == 0 {
+				a.Style, ok = padString(a.Style, which)
+			} else {
+				a.Options, ok = padPair(a.Options, which)
+			}
+			if !ok || !fits(a.Options) {
+				return b, false
+			}
+			m.Addrs = append([]model.RouterAddr{}, m.Addrs...)
+			m.Addrs[i] = a
+		case kind == 18:
+			p, ok := padPair(m.Options, which)
+			if !ok || !fits(p) {
+				return b, false
+			}
+			m.Options = p
+		case kind == 19 && len(m.Addrs) > 0:
+			i := which % len(m.Addrs)
+			bit := (which / len(m.Addrs)) % 72
+			m.Addrs = append([]model.RouterAddr{}, m.Addrs...)
+			if bit < 8 {
+				m.Addrs[i].Cost ^= 1 << uint(bit)
+			} else {
+				m.Addrs[i].Expiration ^= 1 << uint(bit-8)
+			}
 		case kind >= 9:
 			return b, false
 		case which%2 == 1 && len(m.Addrs) > 0:
@@ -301,6 +371,28 @@ func tamper(c Case, b []byte) ([]byte, bool) {
 				return b, false
 			}
 			m.RawOptions = raw
+		case kind == 18:
+			p, ok := padPair(m.Options, which)
+			if !ok || !fits(p) {
+				return b, false
+			}
+			m.Options = p
+		case kind == 19 && which%4 == 0 && len(m.Keys) > 0:
+			i := (which / 4) % len(m.Keys)
+			m.Keys = append([]model.EncKey{}, m.Keys...)
+			m.Keys[i].Type ^= 1 << uint((which/64)%16)
+		case kind == 19 && len(m.Leases) > 0:
+			i := which % len(m.Leases)
+			bit := (which / len(m.Leases)) % 320
+			m.Leases = append(m.Leases[:0:0], m.Leases...)
+			switch {
+			case bit < 32:
+				m.Leases[i].Tunnel ^= 1 << uint(bit)
+			case bit < 64:
+				m.Leases[i].End ^= 1 << uint(bit-32)
+			default:
+				flipBytes(m.Leases[i].GW[:], bit-64)
+			}
 		case kind >= 9:
 			return b, false
 		default:
@@ -323,6 +415,37 @@ func tamper(c Case, b []byte) ([]byte, bool) {
 			m.Entries = append(m.Entries, m.Entries[0])
 		case kind == 13 && len(m.Entries) > 0:
 			m.Entries = m.Entries[:len(m.Entries)-1]
+		case kind == 18:
+			if which%2 == 1 && len(m.Entries) > 0 {
+				i := (which / 60) % len(m.Entries)
+				p, ok := padPair(m.Entries[i].Props, which)
+				if !ok || !fits(p) {
+					return b, false
+				}
+				m.Entries = append([]model.MetaEntry{}, m.Entries...)
+				m.Entries[i].Props = p
+			} else {
+				p, ok := padPair(m.Options, which)
+				if !ok || !fits(p) {
+					return b, false
+				}
+				m.Options = p
+			}
+		case kind == 19 && len(m.Entries) > 0:
+			i := which % len(m.Entries)
+			bit := (which / len(m.Entries)) % 304
+			m.Entries = append([]model.MetaEntry{}, m.Entries...)
+			e := &m.Entries[i]
+			switch {
+			case bit < 8:
+				e.Type ^= 1 << uint(bit)
+			case bit < 16:
+				e.Cost ^= 1 << uint(bit-8)
+			case bit < 48:
+				e.Expires ^= 1 << uint(bit-16)
+			default:
+				e.Hash[(bit-48)/8] ^= 1 << uint(bit%8)
+			}
 		case kind >= 9:
 			return b, false
 		case which%2 == 1 && len(m.Entries) > 0:
@@ -836,7 +959,10 @@ func genCase(t *rapid.T) Case {
 	}
 	c.LibSigned = rapid.IntRange(0, 2).Draw(t, "libsigned") == 0
 	if (c.Kind == "ri" || c.Kind == "ls2" || c.Kind == "meta" || c.Kind == "ls") && rapid.IntRange(0, 3).Draw(t, "tamper") == 0 {
-		c.Tamper = [2]int{rapid.IntRange(0, 40).Draw(t, "twhich"), rapid.IntRange(1, 17).Draw(t, "tkind")}
+		c.Tamper = [2]int{rapid.IntRange(0, 40).Draw(t, "twhich"), rapid.IntRange(1, 19).Draw(t, "tkind")}
+		if c.Tamper[1] >= 18 {
+			c.Tamper[0] = rapid.IntRange(0, 100000).Draw(t, "twhich2")
+		}
 		if rapid.Bool().Draw(t, "tamperonly") {
 			c.SigMode = 0
 		}
